@@ -117,6 +117,8 @@ async fn accept_loop(cx: Arc<Ctx>, conn: TConn, bi: bool, count: usize, g: Arc<G
         next_index = id.index() + 1;
     };
     let mut i = 0;
+    let sibling_mode = !bi && count >= 2 && rng.below(2) == 0;
+    let mut sib = None;
     while i < count {
         let c = cancel(&mut rng, cpct);
         if bi {
@@ -139,7 +141,37 @@ async fn accept_loop(cx: Arc<Ctx>, conn: TConn, bi: bool, count: usize, g: Arc<G
                 OpRes::Cancelled => {}
             }
         } else {
-            match env.op(OpKind::AcceptUni, cx.me, None, c, conn.get().accept_uni()).await {
+            // several tasks may wait in accept_uni() at once. In sibling mode a second accept future
+            // stays pending next to the loop's own: both are woken by every opened stream, one of
+            // them gets it, and the last stream is left to the sibling alone.
+            let res = if sibling_mode {
+                if sib.is_none() {
+                    sib = Some(Box::pin(env.op(OpKind::AcceptUni, cx.me, None, None, conn.get().accept_uni())));
+                    env.inc("accept.sibling_futures");
+                }
+                if i + 1 == count {
+                    sib.take().unwrap().await
+                } else {
+                    let mut main = Box::pin(env.op(OpKind::AcceptUni, cx.me, None, c, conn.get().accept_uni()));
+                    let (r, from_sib) = std::future::poll_fn(|pcx| {
+                        if let std::task::Poll::Ready(r) = main.as_mut().poll(pcx) {
+                            return std::task::Poll::Ready((r, false));
+                        }
+                        if let std::task::Poll::Ready(r) = sib.as_mut().unwrap().as_mut().poll(pcx) {
+                            return std::task::Poll::Ready((r, true));
+                        }
+                        std::task::Poll::Pending
+                    })
+                    .await;
+                    if from_sib {
+                        sib = None;
+                    }
+                    r
+                }
+            } else {
+                env.op(OpKind::AcceptUni, cx.me, None, c, conn.get().accept_uni()).await
+            };
+            match res {
                 OpRes::Done(Ok(r)) => {
                     check_id(r.id(), &cx);
                     let tr = TRecv::new(&env, cx.me, r);
@@ -156,6 +188,7 @@ async fn accept_loop(cx: Arc<Ctx>, conn: TConn, bi: bool, count: usize, g: Arc<G
             }
         }
     }
+    drop(sib);
     if extra {
         // a future parked until the connection goes away: must be woken by close
         let cx2 = cx.clone();
